@@ -58,3 +58,18 @@ CHECKS["C01"] = {
          "shards": {"quick": 8, "thorough": 16}, "timeout": {"quick": 400, "thorough": 3000}},
     ],
 }
+
+CHECKS["C03"] = {
+    "level": "exploration",
+    "exhaustive_claim": False,
+    "technique": "bounded-exhaustive enumeration of (list length 2..4, secret-assignment pattern, labelling partition) + rapid-generated shapes/values, with colluding-holder forgeries (attribute 0 disclosed/split, second response on the secret-key base); oracle = model of label classes",
+    "level_text": "Every set partition of positions into secrets (<=3) and labels (nil + all partitions) for lists of 2..4 builders is built honestly with the shared secret-key randomiser and judged against the model 'accept iff each label class holds one secret'; for each rejected shape three equation-valid forgeries by colluding holders must be rejected as well, null-deviation controls must be accepted.",
+    "level_note": "Builder kinds (disclosure/issuance) and keys (toy/1024/2048) vary with the shape index rather than being enumerated; soundness against other forgery strategies is not covered.",
+    "rule": ("case = one proof list presented to ProofList.Verify with a label vector; honest shapes enumerated exhaustively (296 shapes) and drawn by rapid with generated secrets (differing by +1, one bit, or random). "
+             "Non-trivial: lists with >= 2 distinct secrets, and every adversarial variant; distinct by (secrets, labels, kinds, keys, session flag, variant)."),
+    "assumptions": ["math/big", "control lists (null-deviation adversarial builders) accepted"],
+    "units": [
+        {"pkg": "root", "run": "TestVF_C03_Exhaustive", "shards": {"quick": 8, "thorough": 16}},
+        {"pkg": "root", "run": "TestVF_C03_Random", "rapid": {"quick": 150, "thorough": 2000}, "shards": {"quick": 6, "thorough": 16}},
+    ],
+}
